@@ -56,10 +56,141 @@ def bits_templates():
     return T
 
 
+WA_HELPERS = """
+func vtBytes(w: u32, n: u32) => []byte {
+	b := []byte{byte(w), byte(w >> 8), byte(w >> 16), byte(w >> 24)}
+	return b[:n%5]
+}
+
+func vtHash(s: string) => u32 {
+	h := u32(len(s))
+	for i := 0; i < len(s); i++ {
+		h = h*31 + u32(s[i])
+	}
+	return h
+}
+
+func vtHashB(s: []byte) => u32 {
+	h := u32(len(s))
+	for i := 0; i < len(s); i++ {
+		h = h*31 + u32(s[i])
+	}
+	return h
+}
+"""
+
+GO_HELPERS = """
+func vtBytes(w uint32, n uint32) []byte {
+	b := []byte{byte(w), byte(w >> 8), byte(w >> 16), byte(w >> 24)}
+	return b[:n%5]
+}
+
+func vtHash(s string) uint32 {
+	h := uint32(len(s))
+	for i := 0; i < len(s); i++ {
+		h = h*31 + uint32(s[i])
+	}
+	return h
+}
+
+func vtHashB(s []byte) uint32 {
+	h := uint32(len(s))
+	for i := 0; i < len(s); i++ {
+		h = h*31 + uint32(s[i])
+	}
+	return h
+}
+"""
+
+
+def w2g(body):
+    """Wa body -> Go body for the helper-based templates (types and := declarations are the only differences used)"""
+    for a, b in (("u32(", "uint32("), ("u64(", "uint64("), ("i32(", "int32("), ("i64(", "int64("), ("u16(", "uint16("), ("u8(", "uint8("),
+                 ("[]u16", "[]uint16"), ("[]i32", "[]int32")):
+        body = body.replace(a, b)
+    return body
+
+
+def text_templates(tier):
+    T = _text_templates()
+    if tier == "quick":
+        # the heaviest loops over data get one byte less in the quick tier (two less for Quote)
+        out = []
+        for t in T:
+            t = list(t)
+            if t[0] in ("strings_ToUpper_ToLower", "strings_TrimSpace_Fields"):
+                continue  # thorough tier only (several minutes each)
+            if t[0] == "strconv_Quote":
+                t[3], t[4] = t[3].replace("vtBytes(w, n)", "vtBytes(w, n%3)"), t[4].replace("vtBytes(w, n)", "vtBytes(w, n%3)")
+            elif t[0] in ("strings_ToUpper_ToLower", "strings_TrimSpace_Fields", "utf8_RuneCount", "utf8_RuneCountInString", "utf8_DecodeLastRune"):
+                t[3], t[4] = t[3].replace("vtBytes(w, n)", "vtBytes(w, n%4)"), t[4].replace("vtBytes(w, n)", "vtBytes(w, n%4)")
+            out.append(tuple(t))
+        T = out
+    return T
+
+
+def _text_templates():
+    """utf8, utf16, strconv, hashes, hex, binary, sort, strings, bytes on packed scalar arguments:
+    w = up to four bytes (little end first), n%5 = how many of them are used"""
+    T = []
+    wn = [("w", "u32"), ("n", "u32")]
+    def both(name, params, res, body, assume=(), zone=None):
+        T.append((name, params, res, body, w2g(body), list(assume), zone))
+    # unicode/utf8
+    both("utf8_RuneLen", [("r", "i32")], "i32", "return i32(utf8.RuneLen(rune(r)))")
+    both("utf8_ValidRune", [("r", "i32")], "bool", "return utf8.ValidRune(rune(r))")
+    both("utf8_EncodeRune", [("r", "i32")], "u64", "buf := make([]byte, 4)\n\tk := utf8.EncodeRune(buf, rune(r))\n\treturn u64(k)<<32 | u64(buf[0]) | u64(buf[1])<<8 | u64(buf[2])<<16 | u64(buf[3])<<24")
+    both("utf8_AppendRune", [("r", "i32")], "u32", "return vtHashB(utf8.AppendRune([]byte{'x'}, rune(r)))")
+    both("utf8_DecodeRune", wn, "u64", "r, size := utf8.DecodeRune(vtBytes(w, n))\n\treturn u64(u32(r))<<8 | u64(size)")
+    both("utf8_DecodeRuneInString", wn, "u64", "r, size := utf8.DecodeRuneInString(string(vtBytes(w, n)))\n\treturn u64(u32(r))<<8 | u64(size)")
+    both("utf8_DecodeLastRune", wn, "u64", "r, size := utf8.DecodeLastRune(vtBytes(w, n))\n\treturn u64(u32(r))<<8 | u64(size)")
+    both("utf8_FullRune", wn, "bool", "return utf8.FullRune(vtBytes(w, n))")
+    both("utf8_RuneCount", wn, "i32", "return i32(utf8.RuneCount(vtBytes(w, n)))")
+    both("utf8_RuneCountInString", wn, "i32", "return i32(utf8.RuneCountInString(string(vtBytes(w, n))))")
+    both("utf8_Valid", wn, "bool", "return utf8.Valid(vtBytes(w, n))")
+    both("utf8_ValidString", wn, "bool", "return utf8.ValidString(string(vtBytes(w, n)))")
+    # unicode/utf16
+    both("utf16_IsSurrogate", [("r", "i32")], "bool", "return utf16.IsSurrogate(rune(r))")
+    both("utf16_EncodeRune", [("r", "i32")], "u64", "a, b := utf16.EncodeRune(rune(r))\n\treturn u64(u32(a))<<32 | u64(u32(b))")
+    both("utf16_DecodeRune", [("a", "i32"), ("b", "i32")], "i32", "return i32(utf16.DecodeRune(rune(a), rune(b)))")
+    both("utf16_Encode_Decode", [("r", "i32"), ("q", "i32")], "u32", "e := utf16.Encode([]rune{rune(r), rune(q)})\n\td := utf16.Decode(e)\n\th := u32(len(e))*1000 + u32(len(d))\n\tfor _, x := range e {\n\t\th = h*31 + u32(x)\n\t}\n\tfor _, x := range d {\n\t\th = h*31 + u32(x)\n\t}\n\treturn h")
+    # strconv
+    both("strconv_FormatBool_ParseBool", wn, "u32", "v, err := strconv.ParseBool(string(vtBytes(w, n)))\n\th := vtHash(strconv.FormatBool(v))\n\tif err != nil {\n\t\th += 1000\n\t}\n\treturn h")
+    both("strconv_Atoi", wn, "u64", "v, err := strconv.Atoi(string(vtBytes(w, n)))\n\th := u64(u32(v))\n\tif err != nil {\n\t\th |= 1 << 40\n\t}\n\treturn h")
+    both("strconv_ParseUint_16", wn, "u64", "v, err := strconv.ParseUint(string(vtBytes(w, n)), 16, 16)\n\th := v\n\tif err != nil {\n\t\th |= 1 << 40\n\t}\n\treturn h")
+    both("strconv_ParseUint_64", wn, "u64", "v, err := strconv.ParseUint(string(vtBytes(w, n)), 10, 64)\n\th := v\n\tif err != nil {\n\t\th |= 1 << 40\n\t}\n\treturn h")
+    both("strconv_ParseInt_64", wn, "u64", "v, err := strconv.ParseInt(string(vtBytes(w, n)), 0, 64)\n\th := u64(v) & 0xffffffffff\n\tif err != nil {\n\t\th |= 1 << 40\n\t}\n\treturn h")
+    both("strconv_Quote", wn, "u32", "return vtHash(strconv.Quote(string(vtBytes(w, n))))", zone=("w&0x80808080 != 0", "@non-ascii-input"))
+    # hashes
+    both("adler32_Checksum", wn, "u32", "return adler32.Checksum(vtBytes(w, n))")
+    both("fnv_New32a", wn, "u32", "h := fnv.New32a()\n\th.Write(vtBytes(w, n))\n\treturn h.Sum32()")
+    both("fnv_New64", wn, "u64", "h := fnv.New64()\n\th.Write(vtBytes(w, n))\n\treturn h.Sum64()")
+    # encoding
+    both("hex_EncodeToString", wn, "u32", "return vtHash(hex.EncodeToString(vtBytes(w, n)))")
+    both("hex_DecodeString", wn, "u32", "b, err := hex.DecodeString(string(vtBytes(w, n)))\n\th := vtHashB(b)\n\tif err != nil {\n\t\th += 100000\n\t}\n\treturn h")
+    both("binary_LittleEndian", [("w", "u32")], "u64", "b := vtBytes(w, 4)\n\tbinary.BigEndian.PutUint16(b[1:], binary.LittleEndian.Uint16(b))\n\treturn u64(binary.LittleEndian.Uint32(b))<<32 | u64(binary.BigEndian.Uint32(b))")
+    both("base64_StdEncoding", wn, "u32", "return vtHash(base64.StdEncoding.EncodeToString(vtBytes(w, n)))")
+    # sort
+    both("sort_Ints", [("a", "i32"), ("b", "i32"), ("c", "i32")], "u32", "s := []int{int(a), int(b), int(c)}\n\tsort.Ints(s)\n\treturn u32(s[0])*7 + u32(s[1])*5 + u32(s[2])*3 + u32(sort.SearchInts(s, int(b)))")
+    # strings / bytes
+    both("strings_Index", [("w", "u32"), ("n", "u32"), ("c", "u8")], "i32", "return i32(strings.Index(string(vtBytes(w, n)), string([]byte{c})))*8 + i32(strings.LastIndexByte(string(vtBytes(w, n)), c))")
+    both("strings_HasPrefix_Contains", [("w", "u32"), ("n", "u32"), ("c", "u8")], "u32", "s := string(vtBytes(w, n))\n\tt := string([]byte{c, 'a'})\n\th := u32(0)\n\tif strings.HasPrefix(s, t) {\n\t\th += 1\n\t}\n\tif strings.HasSuffix(s, t) {\n\t\th += 2\n\t}\n\tif strings.Contains(s, t) {\n\t\th += 4\n\t}\n\treturn h + u32(strings.Count(s, t))*8")
+    both("strings_ToUpper_ToLower", wn, "u32", "s := string(vtBytes(w, n))\n\treturn vtHash(strings.ToUpper(s))*31 + vtHash(strings.ToLower(s))",
+         zone=("w&0x80808080 != 0", "@non-ascii-input"))
+    both("strings_TrimSpace_Fields", wn, "u32", "s := string(vtBytes(w, n))\n\treturn vtHash(strings.TrimSpace(s))*31 + u32(len(strings.Fields(s)))")
+    both("bytes_Equal_Index", [("w", "u32"), ("n", "u32"), ("c", "u8")], "i32", "b := vtBytes(w, n)\n\th := i32(bytes.IndexByte(b, c)) * 4\n\tif bytes.Equal(b, []byte{c}) {\n\t\th += 1\n\t}\n\treturn h + i32(bytes.Compare(b, []byte{c, c}))")
+    return T
+
+
+WA_IMPORTS = ["math/bits", "unicode/utf8", "unicode/utf16", "strconv", "hash/adler32", "hash/fnv", "encoding/hex", "encoding/binary",
+              "encoding/base64", "sort", "strings", "bytes"]
+
+
 def gen(tier, families=None):
     import os
-    T = bits_templates()
+    T = bits_templates() + text_templates(tier)
     only = os.environ.get("VERIF_ONLY")  # developer aid: restrict to templates whose name contains one of these
     if only:
         T = [t for t in T if any(o in t[0] for o in only.split(","))]
-    return c01gen.gen_from(T, "c14", wa_imports=["math/bits"], go_imports=["math/bits"], run_start=True)
+    used = [i for i in WA_IMPORTS if any((i.split("/")[-1] + ".") in t[3] for t in T)]
+    return c01gen.gen_from(T, "c14", wa_imports=used, go_imports=used, wa_extra=WA_HELPERS, go_extra=GO_HELPERS, run_start=True)
